@@ -317,35 +317,63 @@ def _hyp_collect(strategy, seed, n):
     return out
 
 
-def sources(seed, n, cfg=None, profile="auto"):
-    """-> list of {"text", "origin", "tags", "rseed"}; distinct texts.  `rseed` is a Hypothesis-drawn integer from which the
-    template choices for that schema are derived."""
+def _draw_chunk(arg):
+    kind, seed, k, cfg = arg
     from hypothesis import strategies as st
-    cfg = dict(cfg or {})
-    res, seen = [], set()
-    origin = None
-    if profile in ("auto", "explang"):
-        try:
-            import explang
-            strat = st.tuples(explang.schemas(cfg.get("explang", {})), st.integers(0, 2 ** 32 - 1))
-            for d, r in _hyp_collect(strat, seed, n + 2):
-                res.append({"text": d["text"], "origin": "explang", "tags": list(d.get("tags", [])), "rseed": r})
-            origin = "explang"
-        except ImportError:
-            if profile == "explang":
-                raise
-    if origin is None:
+    out = []
+    if kind == "explang":
+        import explang
+        strat = st.tuples(explang.schemas(cfg.get("explang", {})), st.integers(0, 2 ** 32 - 1))
+        for d, r in _hyp_collect(strat, seed, k):
+            out.append({"text": d["text"], "origin": "explang", "tags": list(d.get("tags", [])), "rseed": r})
+    else:
         import expgen
         import exprender
         strat = st.tuples(expgen.schemas(cfg.get("expgen", {})), st.integers(0, 2 ** 32 - 1))
-        for d, r in _hyp_collect(strat, seed, n + 2):
-            res.append({"text": exprender.schema(d), "origin": "expgen", "tags": expgen.tags(d), "rseed": r})
-    out = []
-    for s in res:
-        if s["text"] not in seen:
+        for d, r in _hyp_collect(strat, seed, k):
+            out.append({"text": exprender.schema(d), "origin": "expgen", "tags": expgen.tags(d), "rseed": r})
+    return out
+
+
+def have_explang():
+    try:
+        import explang      # noqa: F401
+        return True
+    except ImportError:
+        return False
+
+
+def sources(seed, n, cfg=None, profile="auto", chunk=12):
+    """-> list of {"text", "origin", "tags", "rseed"}; distinct texts.  `rseed` is a Hypothesis-drawn integer from which the
+    template choices for that schema are derived.  profile: 'auto' = language profile (lib/explang.py) for two thirds and
+    codegen profile (lib/expgen.py) for one third when explang is importable, else expgen only; 'explang' / 'expgen' force one.
+    Drawn in parallel chunks, each chunk an independent Hypothesis run seeded with a sub-seed."""
+    import common
+    cfg = dict(cfg or {})
+    if profile == "auto":
+        plan = [("explang", n - n // 3), ("expgen", n // 3)] if have_explang() else [("expgen", n)]
+    else:
+        plan = [(profile, n)]
+    jobs = []
+    for kind, want in plan:
+        # Hypothesis repeats small examples: draw ~1.6x and de-duplicate
+        total = int(want * 1.6) + 4
+        k = 0
+        while total > 0:
+            jobs.append((kind, common.sub_seed(seed, "src", kind, k), min(chunk, total), cfg))
+            total -= chunk
+            k += 1
+    res = common.pmap(_draw_chunk, jobs)
+    out, seen, count = [], set(), {}
+    want = dict(plan)
+    for (kind, _s, _k, _c), lst in zip(jobs, res):
+        for s in lst:
+            if s["text"] in seen or count.get(kind, 0) >= want[kind]:
+                continue
             seen.add(s["text"])
+            count[kind] = count.get(kind, 0) + 1
             out.append(s)
-    return out[:n]
+    return out
 
 
 def shipped(repo, which="unitary"):
